@@ -1,7 +1,7 @@
 """C14 -- valid Go files parse to the same syntax tree as with go/parser (parser/parser.go, scanner/scanner.go).
 
 Spec specs/gosyn/GoSyntax.tla: a TYPED, precedence-stratified grammar of a Go subset as a leftmost-derivation
-state machine that rewrites the tree (s-expression) and its token rendering in lock step; one cfg per focus
+state machine that rewrites the tree (s-expression) and its token rendering in lock step; one focus table entry per focus
 (expressions, statements, declarations, generics, literal spellings, layout moves).  TLC checks on the model:
 the two sentential forms stay in step, budget, every exported tree is complete, layout moves are stuttering
 steps on tree and token sequence, Tokens is injective on the finished trees (ASSUME, moderate bounds) and
@@ -16,20 +16,15 @@ from . import gosyn_common as g
 
 LEVEL = "model_checking"
 
-QUICK = [("GoSyntax_expr_quick.cfg", {}), ("GoSyntax_stmt_quick.cfg", {}), ("GoSyntax_oneline_quick.cfg", {}),
-         ("GoSyntax_laystmt_quick.cfg", {}), ("GoSyntax_layexpr_quick.cfg", {}), ("GoSyntax_decl_quick.cfg", {}),
-         ("GoSyntax_generic_quick.cfg", {}), ("GoSyntax_lit_quick.cfg", {})]
+# One TLC run covers several foci (constant Foci; Init picks one): no JVM per focus.
+QUICK = [("GoSyntax_quick.cfg", {"workers": 8})]
 
 
 def thorough(seed):
-    return [("GoSyntax_expr_thorough.cfg", {}), ("GoSyntax_exprcore_thorough.cfg", {}),
-            ("GoSyntax_stmt_quick.cfg", {}), ("GoSyntax_stmt_thorough.cfg", {}), ("GoSyntax_stmtseq_thorough.cfg", {}),
-            ("GoSyntax_oneline_thorough.cfg", {}), ("GoSyntax_laystmt_thorough.cfg", {}),
-            ("GoSyntax_layexpr_thorough.cfg", {}), ("GoSyntax_decl_thorough.cfg", {}), ("GoSyntax_laydecl_thorough.cfg", {}),
-            ("GoSyntax_generic_thorough.cfg", {}), ("GoSyntax_lit_thorough.cfg", {}),
+    return [("GoSyntax_thorough_a.cfg", {}), ("GoSyntax_thorough_b.cfg", {}), ("GoSyntax_thorough_c.cfg", {}),
             # beyond the exhaustive bounds: seeded random derivations
-            ("GoSyntax_exprsim_thorough.cfg", {"simulate": "num=6000", "depth": 80, "seed": seed}),
-            ("GoSyntax_stmtsim_thorough.cfg", {"simulate": "num=6000", "depth": 120, "seed": seed})]
+            ("GoSyntax_exprsim.cfg", {"simulate": "num=6000", "depth": 80, "seed": seed}),
+            ("GoSyntax_stmtsim.cfg", {"simulate": "num=6000", "depth": 120, "seed": seed})]
 
 
 def run(ctx):
@@ -45,7 +40,7 @@ def run(ctx):
         return
     open(cases, "w").close()
     jobs = QUICK if ctx.tier == "quick" else thorough(ctx.seed)
-    g.run_cfgs(ctx, "GoSyntax", jobs, cases)
+    g.run_cfgs(ctx, "GoSyntax", jobs, cases, parallel=1 if ctx.tier == "quick" else 3)
     n = g.dedupe_and_check_unambiguous(ctx, cases)
     ctx.log("%d distinct (tree, layout) cases; no token text belongs to two trees" % n)
     res = ctx.run_harness(h, ["c14"], cases, timeout_s=2400)
